@@ -13,7 +13,7 @@ import (
 func init() { register("C20", propC20) }
 
 func propC20(w *World, r *Report) {
-	r.Explanation = "Decided clause: in LogLimiter.Print (G1) the only path that skips log.Print is guarded by exactly 'now - previousTime < interval' (strict) AND 'message == previousEntry', every other path prints; (G2) the printed argument is the parameter unmodified and Printf is Print(Sprintf(format, args...)); (G3) both state fields are stored on every printing path (the clock value read for the comparison, and the message) and on no suppressing path; (G4) the clock is read exactly once per call; (G5) the constructor stores the interval and time.Now, and MotionProcessor builds its limiter with one minute. Rule: exhaustive path enumeration of the loop-free function with normalised guards (finite; all orderings of the two comparisons)."
+	r.Explanation = "Decided clause: in LogLimiter.Print (G1) the only path that skips log.Print is guarded by exactly 'now - previousTime < interval' (strict) AND 'message == previousEntry', every other path prints; (G2) the printed argument is the parameter unmodified and Printf is Print(Sprintf(format, args...)); (G3) both state fields are stored on every printing path (the clock value read for the comparison, and the message) and on no suppressing path; (G4) the clock is read exactly once per call; (G5) the constructor stores the interval and time.Now, and MotionProcessor builds its limiter with one minute. Rule: exhaustive path enumeration of the loop-free function with normalised guards (finite; all orderings of the two comparisons). Also (G1, linked from C17.V3) the processor never re-raises its own test-recording request (two alternating lines per frame are never suppressed)."
 	r.RuleText = "obligation per (rule, path/construct); the function is loop-free so its paths are enumerated completely"
 	r.Assumptions = []string{"log.Print writes its argument (standard library)"}
 	T := w.NamedType("loglimiter", "LogLimiter")
@@ -59,7 +59,7 @@ func propC20(w *World, r *Report) {
 	if core != print {
 		r.Note("Print delegates to %s; the decision procedure is analysed there", core.Name())
 	}
-	paths, complete := enumPaths(e, core, 64)
+	paths, complete := enumPathsInl(e, core, 64, sameReceiverHelperOf(core))
 	if !complete {
 		r.Unknown("G1", "LogLimiter.Print", w.Pos(core.Pos()), "the function is not loop-free: paths cannot be enumerated")
 		return
@@ -119,6 +119,12 @@ func propC20(w *World, r *Report) {
 	// the limiter has no lock of its own: its memory stays consistent because one goroutine - the frame loop - uses it.
 	// A use from a service goroutine makes the memory a shared location (reported by the race rule of C16)
 	linkObligationsOpt(w, r, propC16, "C16", func(o *Obligation) bool { return o.Rule == "C16.R1" && strings.Contains(o.Construct, "LogLimiter") }, "G3")
+	// "a single condition recurring on every frame produces at most one log line per interval": a failing test-recording
+	// start logs two different lines, so it may happen once per request only - the processor never re-raises its own
+	// request (C17.V3); two lines alternating on every frame are never suppressed by the limiter
+	linkObligations(w, r, propC17, "C17", func(o *Obligation) bool {
+		return o.Rule == "C17.V3" && strings.Contains(o.Construct, "leaves the request flag idle")
+	}, "G1")
 	now := "dynamic(" + fClock + ")"
 	condA := "lt(time.Time.Sub(" + now + ", " + fTime + "), " + fInterval + ")"
 	eqArgs := []*Term{tleaf(msg), tleaf(fEntry)}
@@ -137,6 +143,14 @@ func propC20(w *World, r *Report) {
 					prints++
 					// variadic: list(arg)
 					printedArg = e.termOf(x.Call.Args[0]).String()
+				case "log.Printf":
+					// log.Printf("%s", msg) prints the message verbatim, exactly like log.Print(msg)
+					if f, isC := constString(e.termOf(x.Call.Args[0])); isC && f == "%s" && len(x.Call.Args) == 2 {
+						prints++
+						printedArg = e.termOf(x.Call.Args[1]).String()
+						break
+					}
+					r.Fail("G1", name+": the message is emitted unmodified (log.Print of the message itself)", w.InstrPos(x), "the message is handed to log.Printf: it is re-interpreted (format verbs) or decorated instead of printed verbatim", "")
 				case "dynamic":
 					if e.termOf(x.Call.Value).String() == fClock {
 						clock++
